@@ -183,11 +183,10 @@ func (f *mscFam) mscBuild(id string, parent ecommon.Hash, num uint64, cbTok, sea
 }
 
 type mscNodeInfo struct {
-	auth   bool            // nonce = authorize
+	auth   bool             // nonce = authorize
 	vote   *ecommon.Address // coinbase when non-zero
 	signer ecommon.Address  // address of the genuine sealer (zero if none)
 }
-
 
 func (f *mscFam) mscGenesis(r *hx.Run, op []string) string {
 	if len(op) != 8 {
@@ -346,7 +345,11 @@ func (f *mscFam) mscOracle(r *hx.Run, n *posaNode, parentStoredBefore bool) {
 		r.Viol("C29:msc:malformed-stored", fmt.Sprintf("header %s (number %d, epoch %d) stored with extra length %d, mixBad=%v uncleBad=%v", n.id, n.num, f.epoch, len(n.extra), n.mixBad, n.uncBad))
 	}
 	if n.sealBy < 0 {
-		r.Viol("C29:msc:stored-with-bad-seal", fmt.Sprintf("header %s stored although its seal is not a genuine signature", n.id))
+		if n.sealW {
+			r.Viol("C29:msc:stored-with-signer-outside-set", fmt.Sprintf("header %s (number %d) stored, its seal (made over another hash) recovers to an address that is not an authorized signer", n.id, n.num))
+		} else {
+			r.Viol("C29:msc:stored-with-bad-seal", fmt.Sprintf("header %s stored although its seal is not a recoverable signature", n.id))
+		}
 		return
 	}
 	signer := posaKeys[n.sealBy].addr
@@ -409,7 +412,7 @@ func (f *mscFam) mscHdr(r *hx.Run, op []string) string {
 	n, seen := f.nodes[id]
 	if !seen {
 		n = &posaNode{id: id, parent: parent, hash: hash, phash: phash, num: num, cb: h.Coinbase, sealBy: sealBy, diff: diff, extra: h.Extra,
-			mixBad: strings.Contains(op[9], "mix"), uncBad: strings.Contains(op[9], "unc"), time: tm}
+			mixBad: strings.Contains(op[9], "mix"), uncBad: strings.Contains(op[9], "unc"), time: tm, sealW: strings.HasPrefix(op[5], "w")}
 		f.nodes[id] = n
 		f.byHash[hash] = id
 		info := &mscNodeInfo{auth: strings.Contains(op[9], "auth"), vote: vote}
